@@ -1,15 +1,1303 @@
 package main
 
-// CODEC: byte-layout extraction and encoder/decoder agreement (see codec_*.go).
+// CODEC: byte-layout extraction by abstract interpretation of encoder / decoder bodies over go/ssa, and
+// encoder/decoder agreement.
+//
+// Abstract byte: In(p) (input byte p of the decoder's buffer), Enc(F, s) (the byte of significance s of
+// field F's value; s = -1 when only "some function of F" is known), Const, or unknown. Buffers are arrays
+// of byte sets; scalars are lists of (significance, byte). Understood idioms: make/new arrays, constant
+// slicing, binary.*.PutUintNN / UintNN, b[i] loads and stores, copy with constant windows, string/[]byte
+// conversions, shifts by multiples of 8, or/add of parts, conversions, nested encoders/decoders (unordered),
+// composite-literal and field stores. Blocks are visited in dominator pre-order; phis join cellwise.
 
-type codecPair struct {
-	name string
-	enc  func(w *World) *ssaFnRef
-	dec  func(w *World) *ssaFnRef
+import (
+	"fmt"
+	"go/token"
+	"go/types"
+	"sort"
+	"strings"
+
+	"golang.org/x/tools/go/ssa"
+)
+
+type cval struct {
+	in   int        // >= 0: decoder input position
+	f    *types.Var // encoder field
+	sig  int        // significance; -1 unknown
+	cst  bool
+	mask int64 // bit mask within the byte (flag bits); 0 = whole byte
 }
 
-type ssaFnRef struct{}
+func (v cval) String() string {
+	switch {
+	case v.in >= 0:
+		return fmt.Sprintf("in[%d]", v.in)
+	case v.f != nil:
+		return fmt.Sprintf("%s.%d", v.f.Name(), v.sig)
+	case v.cst:
+		return "const"
+	}
+	return "?"
+}
 
-var codecPairsC08, codecPairsC12 []codecPair
+type cbuf struct {
+	cells map[int][]cval
+	input bool
+	size  int          // -1 unknown
+	open  []openRegion // writes of non-constant length: from base onward the bytes may hold the field
+	fill  []cval       // content of cells not written explicitly (result of a nested encoder: function of its arguments)
+}
 
-func runCodecFamily(w *World, r *Report, rule string, pairs []codecPair) {}
+type openRegion struct {
+	base int
+	f    *types.Var
+}
+
+func (b *cbuf) get(p int) []cval {
+	if b.input {
+		return []cval{{in: p, sig: -1}}
+	}
+	if vs, ok := b.cells[p]; ok {
+		return vs
+	}
+	return b.fill
+}
+
+func (b *cbuf) set(p int, vs []cval) { b.cells[p] = vs }
+
+func (b *cbuf) add(p int, vs []cval) {
+	for _, v := range vs {
+		dup := false
+		for _, o := range b.cells[p] {
+			if o == v {
+				dup = true
+			}
+		}
+		if !dup {
+			b.cells[p] = append(b.cells[p], v)
+		}
+	}
+}
+
+type cwin struct {
+	b    *cbuf
+	base int
+	n    int // -1 unknown
+}
+
+type cpart struct {
+	sig int
+	v   cval
+}
+
+type cscalar struct{ parts []cpart }
+
+// seqVal: a byte sequence that is "field F as bytes" (string / []byte conversions).
+type cseq struct {
+	f *types.Var
+}
+
+type codecFact struct {
+	pos  int
+	f    *types.Var
+	sig  int
+	at   token.Pos
+	mask int64
+}
+
+type codecRes struct {
+	fn       *ssa.Function
+	out      []*cbuf     // encoder: returned buffers
+	facts    []codecFact // decoder: input byte -> field
+	unknownW int         // windows with non-constant bounds met
+}
+
+type codecEval struct {
+	symBase ssa.Value
+	depth   int
+	w       *World
+	fn      *ssa.Function
+	env     map[ssa.Value]any
+	res     *codecRes
+	inputs  map[*cbuf]bool
+}
+
+func typeBytes(t types.Type) int {
+	if b := typeBits(t); b > 0 {
+		return b / 8
+	}
+	if bt, ok := t.Underlying().(*types.Basic); ok && bt.Kind() == types.Bool {
+		return 1
+	}
+	return 0
+}
+
+func evalCodec(w *World, fn *ssa.Function) *codecRes {
+	e := &codecEval{w: w, fn: fn, env: map[ssa.Value]any{}, res: &codecRes{fn: fn}, inputs: map[*cbuf]bool{}}
+	// byte-slice parameters are decoder inputs
+	for _, p := range fn.Params {
+		if isByteSlice(p.Type()) {
+			b := &cbuf{cells: map[int][]cval{}, input: true, size: -1}
+			e.env[p] = cwin{b, 0, -1}
+			e.inputs[b] = true
+		}
+	}
+	for _, fv := range fn.FreeVars {
+		_ = fv
+	}
+	var order []*ssa.BasicBlock
+	var walk func(b *ssa.BasicBlock)
+	walk = func(b *ssa.BasicBlock) {
+		order = append(order, b)
+		for _, c := range b.Dominees() {
+			walk(c)
+		}
+	}
+	if len(fn.Blocks) > 0 {
+		walk(fn.Blocks[0])
+	}
+	for _, b := range order {
+		for _, ins := range b.Instrs {
+			e.step(ins)
+		}
+	}
+	return e.res
+}
+
+// offsetOf resolves an index/bound to a constant offset, allowing one symbolic base per function
+// (records parsed in a loop: b[i+11], b[i:i+32]); the base value stands for offset 0.
+func (e *codecEval) offsetOf(v ssa.Value) (int, bool) {
+	if c, ok := constInt(v); ok {
+		return int(c), true
+	}
+	base, off := v, 0
+	if bo, ok := stripConv(v).(*ssa.BinOp); ok && bo.Op == token.ADD {
+		if c, ok := constInt(bo.Y); ok {
+			base, off = bo.X, int(c)
+		} else if c, ok := constInt(bo.X); ok {
+			base, off = bo.Y, int(c)
+		}
+	}
+	base = stripConv(base)
+	if _, isPhi := base.(*ssa.Phi); !isPhi {
+		return 0, false
+	}
+	if e.symBase == nil {
+		e.symBase = base
+	}
+	if e.symBase != base {
+		return 0, false
+	}
+	return off, true
+}
+
+func (e *codecEval) win(v ssa.Value) (cwin, bool) {
+	x, ok := e.env[v]
+	if !ok {
+		return cwin{}, false
+	}
+	wn, ok := x.(cwin)
+	return wn, ok
+}
+
+// scalarOf evaluates an integer/bool/byte value.
+func (e *codecEval) scalarOf(v ssa.Value, depth int) cscalar {
+	if depth > 12 {
+		return cscalar{}
+	}
+	if x, ok := e.env[v]; ok {
+		if s, ok := x.(cscalar); ok {
+			return s
+		}
+	}
+	switch x := v.(type) {
+	case *ssa.Const:
+		n := typeBytes(x.Type())
+		var s cscalar
+		for i := 0; i < n; i++ {
+			s.parts = append(s.parts, cpart{i, cval{in: -1, cst: true, sig: i}})
+		}
+		return s
+	case *ssa.Convert:
+		s := e.scalarOf(x.X, depth+1)
+		n := typeBytes(x.Type())
+		if n == 0 {
+			return s
+		}
+		var out cscalar
+		for _, p := range s.parts {
+			if p.sig < n {
+				out.parts = append(out.parts, p)
+			}
+		}
+		return out
+	case *ssa.ChangeType:
+		return e.scalarOf(x.X, depth+1)
+	case *ssa.BinOp:
+		switch x.Op {
+		case token.OR, token.ADD, token.XOR:
+			a, b := e.scalarOf(x.X, depth+1), e.scalarOf(x.Y, depth+1)
+			return cscalar{append(append([]cpart{}, a.parts...), b.parts...)}
+		case token.SHL, token.SHR:
+			a := e.scalarOf(x.X, depth+1)
+			k, ok := constInt(x.Y)
+			var out cscalar
+			for _, p := range a.parts {
+				q := p
+				if ok && k%8 == 0 && p.sig >= 0 {
+					if x.Op == token.SHL {
+						q.sig += int(k / 8)
+					} else {
+						q.sig -= int(k / 8)
+					}
+					if q.sig < 0 {
+						continue
+					}
+				} else {
+					q.sig = -1
+					q.v.sig = -1
+				}
+				out.parts = append(out.parts, q)
+			}
+			return out
+		case token.AND, token.AND_NOT:
+			a := e.scalarOf(x.X, depth+1)
+			if _, isC := x.Y.(*ssa.Const); !isC {
+				b := e.scalarOf(x.Y, depth+1)
+				return cscalar{append(append([]cpart{}, a.parts...), b.parts...)}
+			}
+			// masking keeps (a subset of) the bytes; a sub-byte mask on a single byte is remembered (flag bits)
+			if m, ok := constInt(x.Y); ok && m > 0 && m < 0xff && len(a.parts) > 0 {
+				var out cscalar
+				for _, p := range a.parts {
+					if p.sig == 0 && p.v.mask == 0 {
+						p.v.mask = m
+					}
+					out.parts = append(out.parts, p)
+				}
+				return out
+			}
+			return a
+		case token.MUL, token.QUO, token.REM, token.SUB:
+			a, b := e.scalarOf(x.X, depth+1), e.scalarOf(x.Y, depth+1)
+			var out cscalar
+			for _, p := range append(append([]cpart{}, a.parts...), b.parts...) {
+				if p.v.cst {
+					continue
+				}
+				p.sig = -1
+				p.v.sig = -1
+				out.parts = append(out.parts, p)
+			}
+			return out
+		case token.EQL, token.NEQ, token.LSS, token.GTR, token.LEQ, token.GEQ:
+			a, b := e.scalarOf(x.X, depth+1), e.scalarOf(x.Y, depth+1)
+			var out cscalar
+			for _, p := range append(append([]cpart{}, a.parts...), b.parts...) {
+				if p.v.cst {
+					continue
+				}
+				p.sig = -1
+				out.parts = append(out.parts, p)
+			}
+			return out
+		}
+	case *ssa.UnOp:
+		if x.Op == token.MUL {
+			// field load (encoder) or byte load (decoder)
+			switch a := x.X.(type) {
+			case *ssa.FieldAddr:
+				if _, f, _, ok := fieldOfAddr(a); ok {
+					return fieldScalar(f, x.Type())
+				}
+			case *ssa.IndexAddr:
+				if wn, ok := e.win(a.X); ok {
+					if i, ok := e.offsetOf(a.Index); ok {
+						var s cscalar
+						for _, cv := range wn.b.get(wn.base + i) {
+							s.parts = append(s.parts, cpart{0, cv})
+						}
+						return s
+					}
+				}
+			case *ssa.Alloc:
+				var out cscalar
+				for _, ref := range *a.Referrers() {
+					if st, ok := ref.(*ssa.Store); ok && st.Addr == ssa.Value(a) {
+						out.parts = append(out.parts, e.scalarOf(st.Val, depth+1).parts...)
+					}
+				}
+				return out
+			}
+		}
+		if x.Op == token.NOT || x.Op == token.SUB || x.Op == token.XOR {
+			return e.scalarOf(x.X, depth+1)
+		}
+	case *ssa.Field:
+		if _, f, _, ok := fieldOfAddr(x); ok {
+			return fieldScalar(f, x.Type())
+		}
+	case *ssa.Phi:
+		var out cscalar
+		for _, ed := range x.Edges {
+			if ed == ssa.Value(x) {
+				continue
+			}
+			out.parts = append(out.parts, e.scalarOf(ed, depth+2).parts...)
+		}
+		return out
+	case *ssa.Index:
+		if wn, ok := e.win(x.X); ok {
+			if i, ok := e.offsetOf(x.Index); ok {
+				var s cscalar
+				for _, cv := range wn.b.get(wn.base + i) {
+					s.parts = append(s.parts, cpart{0, cv})
+				}
+				return s
+			}
+		}
+	case *ssa.Extract:
+		return e.callScalar(x.Tuple, depth)
+	case *ssa.Call:
+		return e.callScalar(x, depth)
+	case *ssa.Parameter:
+		// scalar parameter of a helper: unknown
+	case *ssa.Lookup, *ssa.TypeAssert, *ssa.MakeInterface:
+	}
+	return cscalar{}
+}
+
+func fieldScalar(f *types.Var, t types.Type) cscalar {
+	n := typeBytes(t)
+	var s cscalar
+	if n == 0 {
+		s.parts = append(s.parts, cpart{-1, cval{in: -1, f: f, sig: -1}})
+		return s
+	}
+	for i := 0; i < n; i++ {
+		s.parts = append(s.parts, cpart{i, cval{in: -1, f: f, sig: i}})
+	}
+	return s
+}
+
+// callScalar: the result of a call depends (in an unknown way) on its arguments.
+func (e *codecEval) callScalar(v ssa.Value, depth int) cscalar {
+	c, ok := v.(*ssa.Call)
+	if !ok {
+		return cscalar{}
+	}
+	if isBinaryDecode(c) {
+		n := 0
+		name := c.Call.StaticCallee().Name()
+		switch {
+		case strings.HasSuffix(name, "16"):
+			n = 2
+		case strings.HasSuffix(name, "32"):
+			n = 4
+		case strings.HasSuffix(name, "64"):
+			n = 8
+		}
+		big := strings.Contains(fullFuncName(c.Call.StaticCallee()), "bigEndian")
+		args := c.Call.Args
+		wn, ok := e.win(args[len(args)-1])
+		var s cscalar
+		if !ok {
+			e.res.unknownW++
+			return s
+		}
+		for j := 0; j < n; j++ {
+			sig := j
+			if big {
+				sig = n - 1 - j
+			}
+			for _, cv := range wn.b.get(wn.base + j) {
+				s.parts = append(s.parts, cpart{sig, cv})
+			}
+		}
+		return s
+	}
+	var out cscalar
+	cc := c.Common()
+	args := append([]ssa.Value{}, cc.Args...)
+	if cc.IsInvoke() {
+		args = append(args, cc.Value)
+	}
+	for _, a := range args {
+		for _, p := range e.anyParts(a, depth+1) {
+			if p.v.cst {
+				continue
+			}
+			p.sig = -1
+			p.v.sig = -1
+			out.parts = append(out.parts, p)
+		}
+	}
+	return out
+}
+
+// anyParts returns the abstract bytes a value (scalar, window, sequence, struct pointer field chain) carries.
+func (e *codecEval) anyParts(v ssa.Value, depth int) []cpart {
+	if depth > 12 {
+		return nil
+	}
+	if wn, ok := e.win(v); ok {
+		var out []cpart
+		n := wn.n
+		if n < 0 {
+			n = 0
+			if wn.b.size >= 0 {
+				n = wn.b.size - wn.base
+			}
+		}
+		for k := 0; k < n && k < 4096; k++ {
+			for _, cv := range wn.b.get(wn.base + k) {
+				out = append(out, cpart{k, cv})
+			}
+		}
+		return out
+	}
+	if x, ok := e.env[v]; ok {
+		if sq, ok := x.(cseq); ok {
+			return []cpart{{-1, cval{in: -1, f: sq.f, sig: -1}}}
+		}
+	}
+	switch x := v.(type) {
+	case *ssa.Convert:
+		// string(bytes) / []byte(string)
+		if wn, ok := e.win(x.X); ok {
+			_ = wn
+			return e.anyParts(x.X, depth+1)
+		}
+		if sq := e.seqOf(x.X); sq != nil {
+			return []cpart{{-1, cval{in: -1, f: sq.f, sig: -1}}}
+		}
+	case *ssa.UnOp:
+		if x.Op == token.MUL {
+			if fa, ok := x.X.(*ssa.FieldAddr); ok {
+				if _, f, _, ok := fieldOfAddr(fa); ok {
+					return []cpart{{-1, cval{in: -1, f: f, sig: -1}}}
+				}
+			}
+		}
+	case *ssa.Field:
+		if _, f, _, ok := fieldOfAddr(x); ok {
+			return []cpart{{-1, cval{in: -1, f: f, sig: -1}}}
+		}
+	case *ssa.Slice:
+		if al, ok := x.X.(*ssa.Alloc); ok {
+			// varargs array: the values stored into its elements
+			var out []cpart
+			for _, ref := range *al.Referrers() {
+				if ia, ok := ref.(*ssa.IndexAddr); ok {
+					for _, r2 := range *ia.Referrers() {
+						if st, ok := r2.(*ssa.Store); ok && st.Addr == ssa.Value(ia) {
+							out = append(out, e.anyParts(st.Val, depth+1)...)
+						}
+					}
+				}
+			}
+			if len(out) > 0 {
+				return out
+			}
+		}
+		return e.anyParts(x.X, depth+1)
+	case *ssa.MakeInterface:
+		return e.anyParts(x.X, depth+1)
+	case *ssa.FieldAddr:
+		if _, f, _, ok := fieldOfAddr(x); ok {
+			return []cpart{{-1, cval{in: -1, f: f, sig: -1}}}
+		}
+	}
+	return e.scalarOf(v, depth+1).parts
+}
+
+// seqOf: v is a string/[]byte loaded from a struct field.
+func (e *codecEval) seqOf(v ssa.Value) *cseq { return e.seqOfD(v, 0) }
+
+func (e *codecEval) seqOfD(v ssa.Value, depth int) *cseq {
+	if depth > 8 {
+		return nil
+	}
+	if x, ok := e.env[v]; ok {
+		if sq, ok := x.(cseq); ok {
+			return &sq
+		}
+	}
+	switch x := v.(type) {
+	case *ssa.UnOp:
+		if x.Op == token.MUL {
+			if fa, ok := x.X.(*ssa.FieldAddr); ok {
+				if _, f, _, ok := fieldOfAddr(fa); ok {
+					if isStringOrBytes(x.Type()) {
+						return &cseq{f}
+					}
+				}
+			}
+		}
+	case *ssa.Field:
+		if _, f, _, ok := fieldOfAddr(x); ok && isStringOrBytes(x.Type()) {
+			return &cseq{f}
+		}
+	case *ssa.Convert:
+		return e.seqOfD(x.X, depth+1)
+	case *ssa.Slice:
+		return e.seqOfD(x.X, depth+1)
+	case *ssa.Call:
+		// helper applied to a field sequence (padding, upper-casing, ...): still that field
+		for _, a := range x.Call.Args {
+			if sq := e.seqOfD(a, depth+1); sq != nil {
+				return sq
+			}
+		}
+	case *ssa.Phi:
+		for _, ed := range x.Edges {
+			if sq := e.seqOfD(ed, depth+1); sq != nil {
+				return sq
+			}
+		}
+	}
+	return nil
+}
+
+func isStringOrBytes(t types.Type) bool {
+	if isByteSlice(t) {
+		return true
+	}
+	if b, ok := t.Underlying().(*types.Basic); ok && b.Info()&types.IsString != 0 {
+		return true
+	}
+	if a, ok := t.Underlying().(*types.Array); ok {
+		b, ok := a.Elem().Underlying().(*types.Basic)
+		return ok && b.Kind() == types.Uint8
+	}
+	return false
+}
+
+func (e *codecEval) step(ins ssa.Instruction) {
+	switch x := ins.(type) {
+	case *ssa.MakeSlice:
+		n := -1
+		if c, ok := constInt(x.Len); ok {
+			n = int(c)
+		}
+		if isByteSlice(x.Type()) {
+			b := &cbuf{cells: map[int][]cval{}, size: n}
+			if c, ok := constInt(x.Cap); ok && n == 0 {
+				b.size = int(c)
+			}
+			e.env[x] = cwin{b, 0, n}
+		}
+	case *ssa.Alloc:
+		if arr, ok := deref(x.Type()).Underlying().(*types.Array); ok {
+			if bt, ok := arr.Elem().Underlying().(*types.Basic); ok && bt.Kind() == types.Uint8 {
+				b := &cbuf{cells: map[int][]cval{}, size: int(arr.Len())}
+				e.env[x] = cwin{b, 0, int(arr.Len())}
+			}
+		}
+	case *ssa.Slice:
+		wn, ok := e.win(x.X)
+		if !ok {
+			if sq := e.seqOf(x.X); sq != nil {
+				e.env[x] = *sq
+			}
+			return
+		}
+		lo := 0
+		if x.Low != nil {
+			c, ok := e.offsetOf(x.Low)
+			if !ok {
+				e.res.unknownW++
+				return
+			}
+			lo = c
+		}
+		n := -1
+		if x.High != nil {
+			c, ok := e.offsetOf(x.High)
+			if !ok {
+				e.res.unknownW++
+				// keep the base: length unknown
+				e.env[x] = cwin{wn.b, wn.base + lo, -1}
+				return
+			}
+			n = c - lo
+		} else if wn.n >= 0 {
+			n = wn.n - lo
+		} else if wn.b.size >= 0 {
+			n = wn.b.size - wn.base - lo
+		}
+		e.env[x] = cwin{wn.b, wn.base + lo, n}
+	case *ssa.Phi:
+		// windows: keep the first known; scalars handled lazily
+		for _, ed := range x.Edges {
+			if wn, ok := e.win(ed); ok {
+				e.env[x] = wn
+				break
+			}
+		}
+	case *ssa.ChangeType, *ssa.Convert:
+		var src ssa.Value
+		if c, ok := x.(*ssa.Convert); ok {
+			src = c.X
+		} else {
+			src = x.(*ssa.ChangeType).X
+		}
+		if wn, ok := e.win(src); ok {
+			e.env[x.(ssa.Value)] = wn
+		} else if sq := e.seqOf(src); sq != nil && isStringOrBytes(x.(ssa.Value).Type()) {
+			e.env[x.(ssa.Value)] = *sq
+		}
+	case *ssa.Store:
+		e.store(x)
+	case *ssa.Call:
+		e.call(x)
+	case *ssa.Return:
+		for _, rv := range x.Results {
+			if wn, ok := e.win(rv); ok && !wn.b.input {
+				dup := false
+				for _, o := range e.res.out {
+					if o == wn.b {
+						dup = true
+					}
+				}
+				if !dup {
+					e.res.out = append(e.res.out, wn.b)
+				}
+			}
+		}
+	}
+}
+
+func (e *codecEval) store(st *ssa.Store) {
+	switch a := st.Addr.(type) {
+	case *ssa.IndexAddr:
+		wn, ok := e.win(a.X)
+		if !ok || wn.b.input {
+			return
+		}
+		i0, ok := e.offsetOf(a.Index)
+		if !ok {
+			e.res.unknownW++
+			return
+		}
+		i := int64(i0)
+		var vs []cval
+		for _, p := range e.scalarOf(st.Val, 0).parts {
+			if p.sig == 0 || p.sig == -1 {
+				vs = append(vs, p.v)
+			}
+		}
+		// a flag bit set under `if x.F`: b[k] |= mask
+		if bo, ok := st.Val.(*ssa.BinOp); ok && bo.Op == token.OR {
+			if m, isC := constInt(bo.Y); isC {
+				blk := st.Block()
+				if len(blk.Preds) == 1 {
+					if iff, isIf := lastInstr(blk.Preds[0]).(*ssa.If); isIf && blk.Preds[0].Succs[0] == blk {
+						for _, p := range e.anyParts(iff.Cond, 0) {
+							if p.v.f != nil {
+								vs = append(vs, cval{in: -1, f: p.v.f, sig: -1, mask: m})
+							}
+						}
+					}
+				}
+			}
+		}
+		wn.b.add(wn.base+int(i), vs)
+	case *ssa.FieldAddr:
+		_, f, _, ok := fieldOfAddr(a)
+		if !ok {
+			return
+		}
+		// decoder: a value built from input bytes is stored into field f
+		for _, p := range e.anyParts(st.Val, 0) {
+			if p.v.in >= 0 {
+				sig := p.sig
+				if _, isWin := e.win(st.Val); isWin {
+					sig = p.sig
+				}
+				e.res.facts = append(e.res.facts, codecFact{p.v.in, f, sig, st.Pos(), p.v.mask})
+			}
+		}
+	}
+}
+
+func (e *codecEval) call(c *ssa.Call) {
+	if bi, ok := c.Call.Value.(*ssa.Builtin); ok {
+		switch bi.Name() {
+		case "copy":
+			dst, ok := e.win(c.Call.Args[0])
+			if !ok {
+				// decoder: copy(x.F[:], input window)
+				if sl, isSl := c.Call.Args[0].(*ssa.Slice); isSl {
+					if fa, isFA := sl.X.(*ssa.FieldAddr); isFA {
+						if _, f, _, okf := fieldOfAddr(fa); okf {
+							if sw, okw := e.win(c.Call.Args[1]); okw && sw.n >= 0 {
+								for k := 0; k < sw.n; k++ {
+									for _, cv := range sw.b.get(sw.base + k) {
+										if cv.in >= 0 {
+											e.res.facts = append(e.res.facts, codecFact{cv.in, f, k, c.Pos(), 0})
+										}
+									}
+								}
+							}
+						}
+					}
+				}
+				return
+			}
+			if dst.b.input {
+				return
+			}
+			src := c.Call.Args[1]
+			if sw, ok := e.win(src); ok {
+				n := dst.n
+				if sw.n >= 0 && (n < 0 || sw.n < n) {
+					n = sw.n
+				}
+				if n < 0 {
+					e.res.unknownW++
+					return
+				}
+				for k := 0; k < n; k++ {
+					dst.b.add(dst.base+k, sw.b.get(sw.base+k))
+				}
+				return
+			}
+			if sq := e.seqOf(src); sq != nil {
+				n := dst.n
+				if n < 0 {
+					dst.b.open = append(dst.b.open, openRegion{dst.base, sq.f})
+					return
+				}
+				for k := 0; k < n; k++ {
+					dst.b.add(dst.base+k, []cval{{in: -1, f: sq.f, sig: k}})
+				}
+				return
+			}
+			// result of a nested encoder / helper: unordered function of its arguments
+			parts := e.anyParts(src, 0)
+			n := dst.n
+			if n < 0 {
+				for _, p := range parts {
+					if p.v.f != nil {
+						dst.b.open = append(dst.b.open, openRegion{dst.base, p.v.f})
+					}
+				}
+				e.res.unknownW++
+				return
+			}
+			var vs []cval
+			for _, p := range parts {
+				if p.v.cst {
+					continue
+				}
+				v := p.v
+				v.sig = -1
+				vs = append(vs, v)
+			}
+			if len(vs) == 0 {
+				vs = []cval{{in: -1, cst: true, sig: -1}}
+			}
+			for k := 0; k < n; k++ {
+				dst.b.add(dst.base+k, vs)
+			}
+		case "append":
+			// append(dst, src...) where dst is a window with known length: bytes land after it
+			if dst, ok := e.win(c.Call.Args[0]); ok && len(c.Call.Args) > 1 {
+				src := c.Call.Args[1]
+				sw, okS := e.win(src)
+				if okS && sw.n >= 0 && dst.n >= 0 {
+					// the result is a new sequence: dst's bytes followed by src's
+					nb := &cbuf{cells: map[int][]cval{}, size: -1, open: dst.b.open, fill: dst.b.fill}
+					for k := 0; k < dst.n; k++ {
+						nb.cells[k] = dst.b.get(dst.base + k)
+					}
+					for k := 0; k < sw.n; k++ {
+						nb.cells[dst.n+k] = sw.b.get(sw.base + k)
+					}
+					e.env[c] = cwin{nb, 0, dst.n + sw.n}
+					return
+				}
+				if !dst.b.input {
+					e.env[c] = cwin{dst.b, dst.base, -1}
+				}
+			}
+		}
+		return
+	}
+	f := c.Call.StaticCallee()
+	if f == nil {
+		return
+	}
+	full := fullFuncName(f)
+	if strings.HasPrefix(full, "(encoding/binary.") && strings.Contains(full, ").PutUint") {
+		n := 0
+		switch {
+		case strings.HasSuffix(f.Name(), "16"):
+			n = 2
+		case strings.HasSuffix(f.Name(), "32"):
+			n = 4
+		case strings.HasSuffix(f.Name(), "64"):
+			n = 8
+		}
+		big := strings.Contains(full, "bigEndian")
+		args := c.Call.Args
+		wn, ok := e.win(args[len(args)-2])
+		if !ok || wn.b.input {
+			if !ok {
+				e.res.unknownW++
+			}
+			return
+		}
+		s := e.scalarOf(args[len(args)-1], 0)
+		for j := 0; j < n; j++ {
+			sig := j
+			if big {
+				sig = n - 1 - j
+			}
+			var vs []cval
+			for _, p := range s.parts {
+				if p.sig == sig || p.sig == -1 {
+					v := p.v
+					if p.sig == -1 {
+						v.sig = -1
+					}
+					vs = append(vs, v)
+				}
+			}
+			if len(vs) == 0 {
+				vs = []cval{{in: -1, sig: -1}} // written, content unknown
+			}
+			wn.b.add(wn.base+j, vs)
+		}
+		return
+	}
+	// a helper / closure that writes into a window it is handed: evaluate its body with the caller's values
+	if e.w.fnSet[f] && f.Blocks != nil && e.depth < 2 {
+		hasWin := false
+		for _, a := range c.Call.Args {
+			if wn, ok := e.win(a); ok && !wn.b.input {
+				hasWin = true
+			}
+		}
+		if hasWin {
+			sub := &codecEval{w: e.w, fn: f, env: map[ssa.Value]any{}, res: e.res, inputs: e.inputs, depth: e.depth + 1}
+			for i, a := range c.Call.Args {
+				if i >= len(f.Params) {
+					break
+				}
+				if wn, ok := e.win(a); ok {
+					sub.env[f.Params[i]] = wn
+				} else if sq := e.seqOf(a); sq != nil {
+					sub.env[f.Params[i]] = *sq
+				} else {
+					ps := e.anyParts(a, 0)
+					sub.env[f.Params[i]] = cscalar{ps}
+				}
+			}
+			if mc, ok := c.Call.Value.(*ssa.MakeClosure); ok {
+				for i, fv := range f.FreeVars {
+					if i < len(mc.Bindings) {
+						if wn, ok := e.win(mc.Bindings[i]); ok {
+							sub.env[fv] = wn
+						}
+					}
+				}
+			}
+			var order []*ssa.BasicBlock
+			var walk func(b *ssa.BasicBlock)
+			walk = func(b *ssa.BasicBlock) {
+				order = append(order, b)
+				for _, ch := range b.Dominees() {
+					walk(ch)
+				}
+			}
+			walk(f.Blocks[0])
+			for _, b := range order {
+				for _, ins := range b.Instrs {
+					if _, isRet := ins.(*ssa.Return); isRet {
+						continue
+					}
+					sub.step(ins)
+				}
+			}
+			return
+		}
+	}
+	// a call returning a byte slice: treat as a fresh buffer whose bytes are an unordered function of the
+	// arguments (nested encoder), unless it is a decoder input pass-through
+	if c.Type() != nil && isByteSlice(c.Type()) {
+		b := &cbuf{cells: map[int][]cval{}, size: -1}
+		for _, p := range e.anyParts2(c) {
+			if p.v.cst {
+				continue
+			}
+			v := p.v
+			v.sig = -1
+			b.fill = append(b.fill, v)
+		}
+		e.env[c] = cwin{b, 0, -1}
+	}
+}
+
+// nestedBuf marks the result of a nested encoder call (length unknown).
+type nestedBuf struct {
+	b     *cbuf
+	parts []cpart
+}
+
+func (e *codecEval) anyParts2(c *ssa.Call) []cpart {
+	var out []cpart
+	cc := c.Common()
+	args := append([]ssa.Value{}, cc.Args...)
+	if cc.IsInvoke() {
+		args = append(args, cc.Value)
+	}
+	for _, a := range args {
+		for _, p := range e.anyParts(a, 1) {
+			p.sig = -1
+			out = append(out, p)
+		}
+		// receiver given as &x.F / x.F
+		if fa, ok := a.(*ssa.FieldAddr); ok {
+			if _, f, _, ok := fieldOfAddr(fa); ok {
+				out = append(out, cpart{-1, cval{in: -1, f: f, sig: -1}})
+			}
+		}
+	}
+	return out
+}
+
+// ---- agreement -------------------------------------------------------------------------------------
+
+type codecPair struct {
+	name     string
+	encPkg   string
+	encRecv  string // "" for package-level function
+	encName  string
+	decPkg   string
+	decRecv  string
+	decName  string
+	minMatch int // floor: matched decoder bytes
+	base     int // decoder input offset relative to encoder output (decoder gets b[base:])
+}
+
+func (w *World) codecFn(pkg, recv, name string) *ssa.Function {
+	if recv == "" {
+		return w.FuncOpt(pkg, name)
+	}
+	return w.MethodOpt(pkg, recv, name)
+}
+
+type pairStats struct {
+	Pair       string   `json:"pair"`
+	DecBytes   int      `json:"decoder_bytes"`
+	Matched    int      `json:"matched"`
+	Unresolved int      `json:"unresolved"`
+	UnknownW   int      `json:"non_constant_windows"`
+	Fields     []string `json:"fields_matched"`
+}
+
+func runCodecFamily(w *World, r *Report, rule string, pairs []codecPair) {
+	var stats []pairStats
+	for _, cp := range pairs {
+		enc := w.codecFn(cp.encPkg, cp.encRecv, cp.encName)
+		dec := w.codecFn(cp.decPkg, cp.decRecv, cp.decName)
+		if enc == nil || dec == nil {
+			fatalf("%s: codec pair %s: encoder or decoder not found (%s.%s.%s / %s.%s.%s)", rule, cp.name, cp.encPkg, cp.encRecv, cp.encName, cp.decPkg, cp.decRecv, cp.decName)
+		}
+		er, dr := evalCodec(w, enc), evalCodec(w, dec)
+		st := pairStats{Pair: cp.name, UnknownW: er.unknownW + dr.unknownW}
+		// merged encoder cells
+		cells := map[int][]cval{}
+		var opens []openRegion
+		for _, b := range er.out {
+			for p, vs := range b.cells {
+				cells[p] = append(cells[p], vs...)
+			}
+			opens = append(opens, b.open...)
+		}
+		// encoder view per field: positions where it is written with a known significance
+		encPos := map[*types.Var]map[int]int{}
+		for p, vs := range cells {
+			for _, v := range vs {
+				if v.f != nil {
+					if encPos[v.f] == nil {
+						encPos[v.f] = map[int]int{}
+					}
+					encPos[v.f][p] = v.sig
+				}
+			}
+		}
+		// the struct the encoder serialises: only its own fields are compared (nested objects have their own pairs)
+		own := map[string]bool{}
+		if enc.Signature.Recv() != nil {
+			if st, ok := deref(enc.Signature.Recv().Type()).Underlying().(*types.Struct); ok {
+				for k := 0; k < st.NumFields(); k++ {
+					own[st.Field(k).Name()] = true
+				}
+			}
+		}
+		byPos := map[int][]codecFact{}
+		decFields := map[*types.Var]map[int]bool{}
+		for _, ft := range dr.facts {
+			if len(own) > 0 && !own[ft.f.Name()] {
+				continue
+			}
+			p := ft.pos + cp.base
+			byPos[p] = append(byPos[p], ft)
+			if decFields[ft.f] == nil {
+				decFields[ft.f] = map[int]bool{}
+			}
+			decFields[ft.f][p] = true
+		}
+		fieldsOK := map[string]bool{}
+		var positions []int
+		for p := range byPos {
+			positions = append(positions, p)
+		}
+		sort.Ints(positions)
+		for _, p := range positions {
+			st.DecBytes++
+			vs := cells[p]
+			known := false
+			var encFields []string
+			for _, v := range vs {
+				if v.f != nil {
+					known = true
+					encFields = append(encFields, v.String())
+				}
+			}
+			agreed := false
+			var worst *codecFact
+			worstSig := -2
+			maskBad := ""
+			maskOK := map[string]bool{}
+			for k := range byPos[p] {
+				ft := byPos[p][k]
+				for _, v := range vs {
+					if v.f == nil || !sameField(v.f, ft.f) {
+						continue
+					}
+					if v.mask != 0 && ft.mask != 0 && v.mask != ft.mask {
+						maskBad = fmt.Sprintf("flag %s: the encoder sets bit mask %#x of byte %d, the decoder tests %#x", ft.f.Name(), v.mask, p, ft.mask)
+						continue
+					}
+					if v.sig == ft.sig || v.sig == -1 || ft.sig == -1 {
+						agreed = true
+						fieldsOK[ft.f.Name()] = true
+						if v.mask != 0 && v.mask == ft.mask {
+							maskOK[ft.f.Name()] = true
+						}
+					} else if worst == nil {
+						worst, worstSig = &byPos[p][k], v.sig
+					}
+				}
+				for _, op := range opens {
+					if p >= op.base && sameField(op.f, ft.f) {
+						agreed = true
+						fieldsOK[ft.f.Name()] = true
+					}
+				}
+			}
+			if maskBad != "" {
+				// a flag whose mask matches nowhere at this byte
+				nm := strings.Fields(strings.TrimPrefix(maskBad, "flag "))[0]
+				nm = strings.TrimSuffix(nm, ":")
+				if !maskOK[nm] {
+					r.Fail(rule, fnName(dec), fmt.Sprintf("%s: byte %d flag %s", cp.name, p, nm), w.relFile(dec.Pos()), "bit layout disagreement: "+maskBad)
+				}
+			}
+			exact := false
+			for _, ft := range byPos[p] {
+				if ft.sig >= 0 || ft.mask != 0 {
+					exact = true
+				}
+			}
+			switch {
+			case agreed:
+				st.Matched++
+			case !known:
+				st.Unresolved++
+			case !exact:
+				// significance unknown on the decoder side: report only a crossed layout, i.e. every value the encoder
+				// puts at p is a field G that the decoder reads from other offsets only, while the field F the decoder takes
+				// from p is written by the encoder at other offsets only. Both sides know both fields and disagree on where.
+				crossed := len(vs) > 0
+				for _, v := range vs {
+					if v.f == nil {
+						crossed = false
+						break
+					}
+					readElsewhere := false
+					for g, m := range decFields {
+						if sameField(v.f, g) && len(m) > 0 && !m[p] {
+							readElsewhere = true
+						}
+					}
+					if !readElsewhere {
+						crossed = false
+					}
+				}
+				for _, ft := range byPos[p] {
+					writtenElsewhere := false
+					for g, m := range encPos {
+						if _, here := m[p]; sameField(ft.f, g) && len(m) > 0 && !here {
+							writtenElsewhere = true
+						}
+					}
+					if !writtenElsewhere {
+						crossed = false
+					}
+				}
+				if crossed {
+					ft := byPos[p][0]
+					r.Fail(rule, fnName(dec), fmt.Sprintf("%s: byte %d -> %s", cp.name, p, ft.f.Name()), w.relFile(ft.at),
+						fmt.Sprintf("crossed layout: the decoder derives %s from byte %d, where the encoder (%s) writes %s; each side handles the other's field at different offsets", ft.f.Name(), p, fnName(enc), strings.Join(uniq(encFields), ",")))
+				} else {
+					st.Unresolved++
+				}
+			case worst != nil:
+				r.Fail(rule, fnName(dec), fmt.Sprintf("%s: byte %d -> %s", cp.name, p, worst.f.Name()), w.relFile(worst.at),
+					fmt.Sprintf("byte order/position disagreement: the decoder takes byte %d as byte %d of %s, the encoder (%s) writes byte %d of it there", p, worst.sig, worst.f.Name(), fnName(enc), worstSig))
+			default:
+				ft := byPos[p][0]
+				r.Fail(rule, fnName(dec), fmt.Sprintf("%s: byte %d -> %s", cp.name, p, ft.f.Name()), w.relFile(ft.at),
+					fmt.Sprintf("layout disagreement: the decoder reads %s from byte %d, where the encoder (%s) writes %s", ft.f.Name(), p, fnName(enc), strings.Join(uniq(encFields), ",")))
+			}
+		}
+		// reverse: a field both sides know, written at a position the decoder never reads it from
+		for f, pos := range encPos {
+			var df map[int]bool
+			for g, m := range decFields {
+				if sameField(f, g) {
+					df = m
+				}
+			}
+			if df == nil {
+				continue
+			}
+			for p, sig := range pos {
+				if sig < 0 {
+					continue
+				}
+				if !df[p] {
+					// allowed: both-endian duplicates (the decoder reads one copy)
+					dupElsewhere := false
+					for q, s2 := range pos {
+						if q != p && s2 == sig && df[q] {
+							dupElsewhere = true
+						}
+					}
+					if dupElsewhere {
+						continue
+					}
+					r.Fail(rule, fnName(enc), fmt.Sprintf("%s: %s byte %d written at %d", cp.name, f.Name(), sig, p), w.relFile(enc.Pos()),
+						fmt.Sprintf("the encoder writes byte %d of %s at offset %d, but the decoder (%s) never reads %s from that offset", sig, f.Name(), p, fnName(dec), f.Name()))
+				}
+			}
+		}
+		for n := range fieldsOK {
+			st.Fields = append(st.Fields, n)
+		}
+		sort.Strings(st.Fields)
+		stats = append(stats, st)
+		if st.Matched < cp.minMatch && r.countViol(rule) == 0 {
+			fatalf("%s: codec pair %s resolved only %d agreeing bytes (floor %d): the extractor no longer understands this pair", rule, cp.name, st.Matched, cp.minMatch)
+		}
+		r.Ok(rule, fnName(dec), cp.name+": layout agreement", w.relFile(dec.Pos()), fmt.Sprintf("%d decoder bytes, %d agree with the encoder, %d unresolved; fields: %s", st.DecBytes, st.Matched, st.Unresolved, strings.Join(st.Fields, ",")))
+	}
+	if r.Extra["codec_pairs"] == nil {
+		r.Extra["codec_pairs"] = stats
+	} else {
+		r.Extra["codec_pairs"] = append(r.Extra["codec_pairs"].([]pairStats), stats...)
+	}
+}
+
+// sameField: identical field object, or same name in the "same" struct (encoder reads T.f, decoder fills T.f).
+func sameField(a, b *types.Var) bool {
+	if a == b {
+		return true
+	}
+	return a.Name() == b.Name() && a.Pkg() == b.Pkg()
+}
+
+func (r *Report) countViol(rule string) int {
+	n := 0
+	for _, o := range r.Obls {
+		if o.Rule == rule && (o.Status == Violated || o.Status == Undecided) {
+			n++
+		}
+	}
+	return n
+}
+
+func cp(name, encPkg, encRecv, encName, decPkg, decRecv, decName string, minMatch int) codecPair {
+	return codecPair{name: name, encPkg: encPkg, encRecv: encRecv, encName: encName, decPkg: decPkg, decRecv: decRecv, decName: decName, minMatch: minMatch}
+}
+
+const (
+	pF12 = "filesystem/fat12"
+	pF32 = "filesystem/fat32"
+	pE4  = "filesystem/ext4"
+	pISO = "filesystem/iso9660"
+	pSQ  = "filesystem/squashfs"
+	pGPT = "partition/gpt"
+	pMBR = "partition/mbr"
+)
+
+var codecPairsC02 = []codecPair{
+	cp("GPT header", pGPT, "Table", "toGPTBytes", pGPT, "", "readGPTHeader", 28),
+	cp("GPT entry", pGPT, "Partition", "toBytes", pGPT, "", "partitionFromBytes", 18),
+	cp("MBR entry", pMBR, "Partition", "toBytes", pMBR, "", "partitionFromBytes", 12),
+}
+
+var codecPairsC08 = []codecPair{
+	cp("DOS 2.0 BPB", pF12, "Dos20BPB", "ToBytes", pF12, "", "Dos20BPBFromBytes", 10),
+	cp("DOS 3.31 BPB", pF12, "Dos331BPB", "ToBytes", pF12, "", "Dos331BPBFromBytes", 19),
+	cp("DOS 4.0 EBPB", pF12, "Dos40EBPB", "ToBytes", pF12, "", "Dos40EBPBFromBytes", 38),
+	cp("FAT12/16 boot sector", pF12, "msDosBootSector", "toBytes", pF12, "", "msDosBootSectorFromBytes", 8),
+	cp("DOS 7.1 EBPB", pF32, "dos71EBPB", "toBytes", pF32, "", "dos71EBPBFromBytes", 44),
+	cp("FAT32 boot sector", pF32, "msDosBootSector", "toBytes", pF32, "", "msDosBootSectorFromBytes", 68),
+	cp("FSInfo sector", pF32, "FSInformationSector", "toBytes", pF32, "", "fsInformationSectorFromBytes", 6),
+}
+
+var codecPairsC12 = []codecPair{}
+
+var codecPairsC19 = []codecPair{
+	cp("FAT directory entry", pF12, "directoryEntry", "toBytes", pF12, "", "parseDirEntries", 23),
+	cp("ext4 inode", pE4, "inode", "toBytes", pE4, "", "inodeFromBytes", 100),
+	cp("squashfs inode header", pSQ, "inodeHeader", "toBytes", pSQ, "", "parseInodeHeader", 12),
+	cp("ext4 directory entry", pE4, "directoryEntry", "toBytes", pE4, "", "directoryEntryFromBytes", 4),
+}
+
+var codecPairsC07 = []codecPair{
+	cp("squashfs superblock", pSQ, "superblock", "toBytes", pSQ, "", "parseSuperblock", 64),
+	cp("squashfs inode header", pSQ, "inodeHeader", "toBytes", pSQ, "", "parseInodeHeader", 12),
+	cp("basic directory inode", pSQ, "basicDirectory", "toBytes", pSQ, "", "parseBasicDirectory", 12),
+	cp("extended directory inode", pSQ, "extendedDirectory", "toBytes", pSQ, "", "parseExtendedDirectory", 18),
+	cp("basic file inode", pSQ, "basicFile", "toBytes", pSQ, "", "parseBasicFile", 12),
+	cp("extended file inode", pSQ, "extendedFile", "toBytes", pSQ, "", "parseExtendedFile", 30),
+	cp("basic symlink inode", pSQ, "basicSymlink", "toBytes", pSQ, "", "parseBasicSymlink", 3),
+	cp("extended symlink inode", pSQ, "extendedSymlink", "toBytes", pSQ, "", "parseExtendedSymlink", 3),
+	cp("basic device inode", pSQ, "basicDevice", "toBytes", pSQ, "", "parseBasicDevice", 6),
+	cp("extended device inode", pSQ, "extendedDevice", "toBytes", pSQ, "", "parseExtendedDevice", 0),
+	cp("basic IPC inode", pSQ, "basicIPC", "toBytes", pSQ, "", "parseBasicIPC", 3),
+	cp("extended IPC inode", pSQ, "extendedIPC", "toBytes", pSQ, "", "parseExtendedIPC", 6),
+	cp("directory header", pSQ, "directoryHeader", "toBytes", pSQ, "", "parseDirectoryHeader", 9),
+	cp("directory entry", pSQ, "directoryEntryRaw", "toBytes", pSQ, "", "parseDirectoryEntry", 4),
+	cp("fragment entry", pSQ, "fragmentEntry", "toBytes", pSQ, "", "parseFragmentEntry", 9),
+}
+
+var codecPairsC06 = []codecPair{
+	cp("primary volume descriptor", pISO, "primaryVolumeDescriptor", "toBytes", pISO, "", "parsePrimaryVolumeDescriptor", 600),
+	cp("supplementary volume descriptor", pISO, "supplementaryVolumeDescriptor", "toBytes", pISO, "", "parseSupplementaryVolumeDescriptor", 600),
+	cp("directory record", pISO, "directoryEntry", "toBytes", pISO, "", "dirEntryFromBytesWithJoliet", 0),
+}
+
+var codecPairsC05 = []codecPair{
+	cp("ext4 superblock", pE4, "superblock", "toBytes", pE4, "", "superblockFromBytes", 380),
+	cp("ext4 group descriptor", pE4, "groupDescriptor", "toBytes", pE4, "", "groupDescriptorFromBytes", 44),
+	cp("ext4 inode", pE4, "inode", "toBytes", pE4, "", "inodeFromBytes", 100),
+	cp("ext4 directory entry", pE4, "directoryEntry", "toBytes", pE4, "", "directoryEntryFromBytes", 4),
+}
